@@ -353,8 +353,8 @@ def run(ctx):
         ctx.model_check("Failure", None, workers=w, cfg_text=cfg_model(ctx, ntasks=2, fine=True, watch=("select", "busy"), layouts=("own",), stale=1))
         ctx.model_check("Failure", None, workers=w, cfg_text=cfg_model(ctx, ntasks=2, fine=True, racing=True, watch=("select", "busy"),
                                                                        layouts=("own",), kinds=few))
-        ctx.model_check("Failure", None, workers=w, cfg_text=cfg_model(ctx, ntasks=3, racing=True, watch=("select", "busy"),
-                                                                       layouts=("mixed",), kinds=few))
+        ctx.model_check("Failure", None, workers=w, cfg_text=cfg_model(ctx, ntasks=3, racing=True, watch=("select",), states=("RUNNING",),
+                                                                       layouts=("mixed",), kinds=["TASK_FAILED", "AGENT_LOST", "INTERNAL_ERROR"]))
     for r in ctx.model_runs:
         if r["result"] != "ok":
             raise vlib.Inconclusive("MODEL: the model of the code as it is violates a property although every known deviation is excused: %s" % r)
@@ -381,11 +381,12 @@ def run(ctx):
                                "result": "violated:" + violated[0] + " (expected; replayed on the real core)", "wall_s": round(r.wall, 1)})
         ctx.log("deviation %s: TLC counterexample (%s) -> %s %s" % (key, violated[0], shape, script))
     # the repaired design satisfies the plain properties (it reads the workflow state when the watcher subscribes: a stale
-    # healthy state message processed before the subscription is outside what it repairs, hence no "unsub" with stale > 0)
+    # healthy state message or late answer processed before the subscription is outside what it repairs, hence no "unsub"
+    # together with stale messages / a racing transition)
     rep = [cfg_model(ctx, devs=none, strict=True, stale=1, mup=1, watch=("select", "busy"), kinds=few if quick else ALLKINDS,
                      layouts=("own",) if quick else ("own", "shared"))]
     if not quick:
-        rep += [cfg_model(ctx, devs=none, strict=True, hooks=("none", "early", "late")), cfg_model(ctx, devs=none, strict=True, racing=True)]
+        rep += [cfg_model(ctx, devs=none, strict=True, hooks=("none", "early", "late")), cfg_model(ctx, devs=none, strict=True, racing=True, watch=("select", "busy"))]
     for cfg in rep:
         ctx.model_check("Failure", None, workers=w, cfg_text=cfg)
         if ctx.model_runs[-1]["result"] != "ok":
